@@ -52,8 +52,8 @@
      mf number of fields of that line, mp transport, port, cf form of the first c= line, ad address index.
    Receiver R: [alive, fds] and when alive [ct, dcnull, dc (DataCache state), rec: data object slot -> record]. *)
 EXTENDS DataCache, TLC
+CONSTANTS SapNB        \* number of buckets: DATA_CACHE_BUCKETS = 256 in the real cache; the exhaustive models fold it to 8
 
-SapNB == 256
 SapMaxSlot == 64
 (* ---- the corpus of origins, names and addresses the abstract datagrams point into *)
 SapOriginIds == << "- 1 1 IN IP4 h", "- 1 2 IN IP4 h", "- 2 1 IN IP4 h", "- 22 1 IN IP4 h", "alice 2890844526 2890842807 IN IP6 2001:db8::1", "o" >>
@@ -68,7 +68,7 @@ RECURSIVE SapHash(_)
 SapHash(s) == IF s = "" THEN 0 ELSE SapXor(SapCode(SubSeq(s, 1, 1)), SapHash(SubSeq(s, 2, Len(s))), 1)
 SapBuckets == [i \in 1..Len(SapOriginIds) |-> SapHash(SapOriginIds[i])]
 (* key of an origin in the DataCache model: BucketOf(S, key) = key % 256 is the XOR hash *)
-SapKey(o) == (o * SapNB) + SapBuckets[o]
+SapKey(o) == (o * SapNB) + (SapBuckets[o] % SapNB)
 SapOriginOf(key) == key \div SapNB
 SapProto(mp) == CASE mp = "udp" -> 1 [] mp = "RTP/AVP" -> 2 [] mp = "RTP/SAVP" -> 3 [] OTHER -> 0
 
